@@ -7,7 +7,7 @@ use crate::val::{rand_value, st_bits, Fill, ALL_ST, INT_ST};
 use ciphercore_base::data_types::UINT32;
 use ciphercore_base::custom_ops::{CustomOperation, Not, Or};
 use ciphercore_base::data_types::{
-    array_type, scalar_type, tuple_type, vector_type, ScalarType, Type, BIT, UINT64,
+    array_type, named_tuple_type, scalar_type, tuple_type, vector_type, ScalarType, Type, BIT, UINT64,
 };
 use ciphercore_base::data_values::Value;
 use ciphercore_base::errors::Result;
@@ -465,6 +465,82 @@ impl<'a> B<'a> {
             dims[0] += 1;
         }
         let r = self.g.reshape(a, array_type(dims, ta.get_scalar_type()));
+        self.accept(r, "Reshape")
+    }
+
+    /// Reshape between arbitrary types: the flattened leaves are regrouped into another container
+    /// structure and single leaves reshaped; one time in five a near miss (one leaf gets another
+    /// scalar type, another element count, or a leaf is dropped / added)
+    pub fn p_reshape_any(&mut self) -> Option<Node> {
+        let a = self.pick_where(|_| true)?;
+        let ta = self.ty(&a);
+        fn leaves(t: &Type, out: &mut Vec<Type>) {
+            match t {
+                Type::Scalar(_) | Type::Array(_, _) => out.push(t.clone()),
+                Type::Tuple(v) => v.iter().for_each(|x| leaves(x, out)),
+                Type::NamedTuple(v) => v.iter().for_each(|(_, x)| leaves(x, out)),
+                Type::Vector(n, x) => (0..*n).for_each(|_| leaves(x, out)),
+            }
+        }
+        let mut ls: Vec<Type> = vec![];
+        leaves(&ta, &mut ls);
+        if ls.is_empty() || ls.len() > 12 {
+            return None;
+        }
+        // reshape single leaves, keeping the element count
+        let mut new_ls: Vec<Type> = vec![];
+        for l in ls.iter() {
+            let st = l.get_scalar_type();
+            let n: u64 = if l.is_array() { l.get_shape().iter().product() } else { 1 };
+            let t = match self.rng.below(4) {
+                0 => l.clone(),
+                1 if n == 1 => scalar_type(st),
+                1 => array_type(vec![n], st),
+                2 => array_type(vec![1, n], st),
+                _ => {
+                    let divs: Vec<u64> = (1..=n).filter(|d| n % d == 0).collect();
+                    let d = *self.rng.pick(&divs);
+                    array_type(vec![d, n / d], st)
+                }
+            };
+            new_ls.push(t);
+        }
+        if self.rng.chance(1, 5) {
+            let i = self.rng.usize(new_ls.len());
+            let l = new_ls[i].clone();
+            let st = l.get_scalar_type();
+            let other = *self.rng.pick(&crate::val::ALL_ST);
+            match self.rng.below(4) {
+                0 | 1 => {
+                    // another scalar type (same or different width)
+                    new_ls[i] = if l.is_array() { array_type(l.get_shape(), other) } else { scalar_type(other) };
+                }
+                2 => {
+                    let mut sh = if l.is_array() { l.get_shape() } else { vec![1] };
+                    sh[0] += 1;
+                    new_ls[i] = array_type(sh, st);
+                }
+                _ => {
+                    if self.rng.bool() && new_ls.len() > 1 {
+                        new_ls.remove(i);
+                    } else {
+                        new_ls.push(scalar_type(st));
+                    }
+                }
+            }
+        }
+        // regroup
+        let target = match self.rng.below(4) {
+            0 if new_ls.len() == 1 => new_ls[0].clone(),
+            1 if new_ls.len() >= 2 => {
+                let k = self.rng.range(1, new_ls.len() as u64 - 1) as usize;
+                tuple_type(vec![tuple_type(new_ls[..k].to_vec()), tuple_type(new_ls[k..].to_vec())])
+            }
+            2 if new_ls.iter().all(|t| *t == new_ls[0]) => vector_type(new_ls.len() as u64, new_ls[0].clone()),
+            3 => named_tuple_type(new_ls.iter().enumerate().map(|(i, t)| (format!("f{}", i), t.clone())).collect()),
+            _ => tuple_type(new_ls.clone()),
+        };
+        let r = self.g.reshape(a, target);
         self.accept(r, "Reshape")
     }
 
@@ -1193,6 +1269,9 @@ impl<'a> B<'a> {
     pub fn step_any(&mut self) -> Option<Node> {
         if self.rng.chance(1, 8) {
             return self.p_near_miss();
+        }
+        if self.rng.chance(1, 24) {
+            return self.p_reshape_any();
         }
         match self.rng.below(16) {
             0..=8 => self.step_mpc(),
